@@ -235,8 +235,8 @@ impl Property for C04 {
     }
     fn cases(&self, tier: Tier) -> u64 {
         match tier {
-            Tier::Quick => 6_000,
-            Tier::Thorough => 60_000,
+            Tier::Quick => 30_000,
+            Tier::Thorough => 300_000,
         }
     }
     fn required_labels(&self, _tier: Tier) -> Vec<&'static str> {
